@@ -75,6 +75,23 @@ __CPROVER_assigns()
 { return PUREFN(a, b); }
 void HARNESS(void) { INPUT(Agg, in_a); INPUT(Agg, in_b); __CPROVER_assume(agg_ok(&in_a) && agg_ok(&in_b)); c_pure(&in_a, &in_b); CANARY(); }
 
+#elif defined(SPEC_helper_empty)
+/* the real combination helpers with one EMPTY operand (constant default-constructed state): the result is exactly the
+ * other operand's mean / variance sum.  EMPTY_LEFT selects which side is empty. */
+double c_helper_empty(Agg* a, Agg* b, Agg* x)
+__CPROVER_requires(agg_ok(a) && agg_ok(b) && x->A_count >= 1 && (EMPTY_LEFT ? (x == b && a->A_count == 0) : (x == a && b->A_count == 0)))
+__CPROVER_assigns()
+__CPROVER_ensures(__CPROVER_return_value == (WHICH_CV ? x->A_nvar : x->A_mean))
+{ return PUREFN(a, b); }
+void HARNESS(void)
+{
+  INPUT(Agg, in_x); Agg e;
+  e.A_count = 0; e.A_mean = 0.0; e.A_nvar = 0.0; e.A_min = DBL_MAX_; e.A_max = -DBL_MAX_;
+  __CPROVER_assume(agg_ok(&in_x) && in_x.A_count >= 1);
+  if (EMPTY_LEFT) c_helper_empty(&e, &in_x, &in_x); else c_helper_empty(&in_x, &e, &in_x);
+  CANARY();
+}
+
 #elif defined(SPEC_dep)
 /* the helper's result depends only on the fields the uninterpreted abstraction keys on: two runs on states that agree
  * on those fields (and differ arbitrarily elsewhere) return the same value (self-composition) */
